@@ -129,6 +129,11 @@ func (w *e1World) genPath(t *sim.Tape, symlinks bool) string {
 		p = w.newUnder(t, "")
 	}
 
+	if t.Chance(40) && p != "/" {
+		// a trailing separator: only a directory may precede it.
+		return p + "/"
+	}
+
 	// relative form when the path lies below the current directory.
 	if w.cwd != "/" && strings.HasPrefix(p, w.cwd+"/") && t.Chance(500) {
 		p = strings.TrimPrefix(p, w.cwd+"/")
@@ -349,8 +354,41 @@ func (w *e1World) step(c *sim.Ctx, prop string, i int, o fsx.Op, env *fsx.Env, u
 	as := w.snap.String()
 
 	if o.K == "RemoveAll" && out.a.Err != "ok" {
-		// a RemoveAll that fails removes what it can, in an order that is not specified: the caller resynchronises.
-		return out
+		// a RemoveAll that fails removes what it can, in an order that is not specified: the administrator
+		// finishes the job on both sides, after which the trees must agree again.
+		target := o.P
+		if !strings.HasPrefix(target, "/") {
+			target = w.cwd + "/" + target
+		}
+
+		targets := []string{cleanAbs(target)}
+		if targets[0] == "/" {
+			// everything below the root (the helper's RemoveAll of "/" empties the root too).
+			for k := range w.snap.Nodes {
+				if n := w.snap.Nodes[k].Path; n != "/" && strings.Count(n, "/") == 1 {
+					_ = w.fs.RemoveAll(n)
+				}
+			}
+		} else {
+			_ = w.fs.RemoveAll(targets[0])
+		}
+
+		if _, err := w.k.call(kReq{Cmd: "wipe", Paths: targets}); err != nil {
+			out.harness = "kernel helper: " + err.Error()
+
+			return out
+		}
+
+		c.Count("resync_after_failed_removeall", 1)
+
+		if ks, err = w.k.call(kReq{Cmd: "snap", NoOwn: w.kind == "orefafs"}); err != nil {
+			out.harness = "kernel helper: " + err.Error()
+
+			return out
+		}
+
+		w.snap = fsx.Snapshot(w.fs, "/", fsx.SnapOpts{Tops: topNamesE1, NoOwner: w.kind == "orefafs"})
+		as = w.snap.String()
 	}
 
 	if as != ks.Snap {
